@@ -20,6 +20,6 @@ out = ["# Seeded breaking changes", "",
        "All were written by fresh sub-agents that saw only the property text and a scratch worktree of the engine; every one compiles and passes the 84 existing tests. `tools/seedtest` applies each to /repo, runs the quick check(s) and restores /repo.",
        "", "| seed | property | change | needs | result | caught by |", "|---|---|---|---|---|---|"] + rows
 caught = sum(1 for s in res.values() if s["result"] == "caught")
-out += ["", f"{caught} of {len(rows)} seeded changes are reported as VIOLATION by the quick tier of the checks listed (rows marked tools/quickseed.sh: by the harness of that check run against the patched tree)."]
+out += ["", f"{caught} of {len(rows)} seeded changes are reported as VIOLATION by the quick tier of the checks listed."]
 open(os.path.join(ROOT, "seeded", "README.md"), "w").write("\n".join(out) + "\n")
 print(caught, len(rows))
